@@ -112,12 +112,27 @@ func (w *W) fail(oracle, op string, detail map[string]string, format string, a .
 	w.R.Note(owner, oracle+"/"+op)
 }
 
+// flatSep is the separator FlattenedKeys and CompareConfigs join paths with: the configured one, the dot by default.
+func (w *W) flatSep() string {
+	if w.Sep == "" {
+		return "."
+	}
+	return w.Sep
+}
+
 // Configure draws the run's configuration vector (swarm).
 func (w *W) Configure() {
 	t := w.R.T
-	if t.Choose(3, "sep") != 2 {
+	switch t.Choose(3, "sep") {
+	case 0:
 		w.Sep = "."
-		w.Opts = []ucfg.Option{ucfg.PathSep(".")}
+	case 1:
+		// any string may separate path segments
+		w.Sep = []string{"/", "::"}[t.Choose(2, "alt-sep")]
+		w.R.Probe("options: a path separator other than the dot")
+	}
+	if w.Sep != "" {
+		w.Opts = []ucfg.Option{ucfg.PathSep(w.Sep)}
 	}
 	w.G.MaxDepth = 1 + t.Choose(3, "max-depth")
 	w.G.MaxWidth = 1 + t.Choose(3, "max-width")
@@ -503,7 +518,7 @@ func (w *W) checkStructure(root *Handle, op string) {
 	// FlattenedKeys
 	var keys []string
 	w.R.MustComplete("FlattenedKeys", func() { keys = root.C.FlattenedKeys(w.Opts...) })
-	want := root.M.Leaves(".")
+	want := root.M.Leaves(w.flatSep())
 	if strings.Join(keys, "\x00") != strings.Join(want, "\x00") {
 		w.fail("flatkeys", op, map[string]string{"got": strings.Join(keys, ","), "want": strings.Join(want, ",")}, "after %s: FlattenedKeys = %v, the non-nil primitive settings are %v", op, keys, want)
 	}
@@ -744,7 +759,7 @@ func (w *W) opMerge() string {
 				if _, taken := sub.D["zz"]; !taken {
 					v := w.G.Prim()
 					sub.SetD("zz", v)
-					m[k+".zz"] = leaf(v)
+					m[k+w.Sep+"zz"] = leaf(v)
 					desc = fmt.Sprintf("map{%s: h%d, %s.zz: %s}", k, srcH.ID, k, v.Canon())
 					embed = "map+dotted"
 					w.R.Probe("merge: input adds a dotted setting below an embedded config")
@@ -1578,7 +1593,7 @@ func (w *W) readDiff(h *Handle) {
 	}
 	var d diff.Diff
 	w.R.MustComplete("CompareConfigs", func() { d = diff.CompareConfigs(x.C, y.C, w.Opts...) })
-	ox, oy := x.M.Leaves("."), y.M.Leaves(".")
+	ox, oy := x.M.Leaves(w.flatSep()), y.M.Leaves(w.flatSep())
 	inx := map[string]bool{}
 	for _, k := range ox {
 		inx[k] = true
